@@ -187,23 +187,23 @@ General statement (not proved):
     merge_succeeds_replace : s1 = .replace f t sl false → s2 = .replace f' t' sl' false →
         S.apply s1 d = .ok d1 → S.apply s2 d1 = .ok d2 → s1.merge s2 = some m → ∃ d', S.apply m d = .ok d'
 
-for a valid, normal-form `d` and normal-form slices.  Proved below for the *flat* case of the first
-`merge` branch (the second step starts where the first one's content ends — typing, forward deleting,
-pasting in sequence): both slices closed, both replaced ranges flat (`FlatRange`: the range ends at the
+for a valid, normal-form `d` and normal-form slices.  Proved below for the *flat* case of both
+`merge` branches (the second step starts where the first one's content ends — typing, forward deleting,
+pasting in sequence — or ends where the first one starts — deleting backwards): both slices closed,
+both replaced ranges flat (`FlatRange`: the range ends at the
 depth it starts at and never rises above it — every range whose `Node.slice` is closed,
 `flatRange_of_closed`; every empty range, `flatRange_refl`).  There the merged step rebuilds one child
 list only, and it is token for token the list the second step built and validated; no validity
 hypothesis on `d` is needed.  Missing for the general case: the same comparison along the two spines of
 open slices (the merged step's `close` arguments are contents of nodes the two steps re-closed, but
-joined in a different order), and the second `merge` branch (the second step ends where the first one
-starts), which is the mirror image. -/
+joined in a different order). -/
 
-/-- **merged flat replace steps: the merged step applies and yields the pair's result** -/
+/-- **merged flat replace steps: the merged step applies and yields the pair's result** — both `merge`
+    branches (the second step starts where the first one's content ends / ends where the first one starts) -/
 theorem merge_succeeds_replace_flat (S : Schema) (d d1 d2 : Node) (f t f' t' : Nat) (c c' : List Node)
     (m : Step) (hn : fnorm d.kids = true) (hcn : fnorm c = true) (hcn' : fnorm c' = true)
     (h1 : S.apply (.replace f t ⟨c, 0, 0⟩ false) d = .ok d1)
     (h2 : S.apply (.replace f' t' ⟨c', 0, 0⟩ false) d1 = .ok d2)
-    (hf' : f' = f + fsize c)
     (hfl1 : FlatRange d.kids f t) (hfl2 : FlatRange d1.kids f' t')
     (hm : (Step.replace f t ⟨c, 0, 0⟩ false).merge (.replace f' t' ⟨c', 0, 0⟩ false) = some m) :
     S.apply m d = .ok d2 := by
@@ -212,28 +212,48 @@ theorem merge_succeeds_replace_flat (S : Schema) (d d1 d2 : Node) (f t f' t' : N
     fromReplace_parts S _ d2 f' t' _ (apply_replace_from _ _ _ _ _ _ _ h2)
   cases he
   simp only [Node.kids] at hn hfl1 hfl2
-  have key := replaceKids_merge_flat S ty K K1 K2 f t f' t' c c' hn hcn hcn' hr1 hr2 hf' hfl1 hfl2
-  -- the merged step
-  have hcond : (((f : Int) + (Slice.mk c 0 0).size = (f' : Int)) ∧ (Slice.mk c 0 0).openEnd = 0) ∧
-      (Slice.mk c' 0 0).openStart = 0 := by
-    refine ⟨⟨?_, rfl⟩, rfl⟩
-    simp only [Slice.size]; omega
-  simp only [Step.merge, Bool.or_self, Bool.false_eq_true, if_false] at hm
-  rw [if_pos (by simpa using hcond)] at hm
-  simp only [Option.some.injEq] at hm
-  subst hm
-  have hsl : (if (Slice.mk c 0 0).size + (Slice.mk c' 0 0).size = 0 then Slice.empty
+  -- an empty merged slice is the concatenation as well
+  have hz : (Slice.mk c 0 0).size + (Slice.mk c' 0 0).size = 0 → c = [] ∧ c' = [] := by
+    intro hz
+    simp only [Slice.size] at hz
+    exact ⟨fsize_zero_of_fnormKids c (fnormKids_of_fnorm hcn) (by omega),
+      fsize_zero_of_fnormKids c' (fnormKids_of_fnorm hcn') (by omega)⟩
+  have hsl1 : (if (Slice.mk c 0 0).size + (Slice.mk c' 0 0).size = 0 then Slice.empty
       else ⟨fappend c c', 0, 0⟩) = ⟨fappend c c', 0, 0⟩ := by
     split
-    · rename_i hz
-      simp only [Slice.size] at hz
-      have z1 : c = [] := fsize_zero_of_fnormKids c (fnormKids_of_fnorm hcn) (by omega)
-      have z2 : c' = [] := fsize_zero_of_fnormKids c' (fnormKids_of_fnorm hcn') (by omega)
-      subst z1; subst z2
-      rfl
+    · rename_i h; obtain ⟨rfl, rfl⟩ := hz h; rfl
     · rfl
-  simp only [hsl, Schema.apply, Bool.false_eq_true, if_false, Schema.fromReplace, Schema.replace, key,
-    Except.map]
+  have hsl2 : (if (Slice.mk c 0 0).size + (Slice.mk c' 0 0).size = 0 then Slice.empty
+      else ⟨fappend c' c, 0, 0⟩) = ⟨fappend c' c, 0, 0⟩ := by
+    split
+    · rename_i h; obtain ⟨rfl, rfl⟩ := hz h; rfl
+    · rfl
+  simp only [Step.merge, Bool.or_self, Bool.false_eq_true, if_false] at hm
+  split at hm
+  · -- the second step starts where the first one's content ends
+    rename_i hc
+    simp only [Bool.and_eq_true, decide_eq_true_eq] at hc
+    have hf' : f' = f + fsize c := by
+      have := hc.1.1
+      simp only [Slice.size] at this
+      omega
+    simp only [Option.some.injEq] at hm
+    subst hm
+    have key := replaceKids_merge_flat S ty K K1 K2 f t f' t' c c' hn hcn hcn' hr1 hr2 hf' hfl1 hfl2
+    simp only [hsl1, Schema.apply, Bool.false_eq_true, if_false, Schema.fromReplace, Schema.replace, key,
+      Except.map]
+  · split at hm
+    · -- the second step ends where the first one starts
+      rename_i hc
+      simp only [Bool.and_eq_true, decide_eq_true_eq] at hc
+      have ht' : t' = f := hc.1.1
+      subst ht'
+      simp only [Option.some.injEq] at hm
+      subst hm
+      have key := replaceKids_merge_flat_left S ty K K1 K2 t' t f' c c' hn hcn hcn' hr1 hr2 hfl1 hfl2
+      simp only [hsl2, Schema.apply, Bool.false_eq_true, if_false, Schema.fromReplace, Schema.replace, key,
+        Except.map]
+    · simp at hm
 
 /-! Non-vacuity of `merge_succeeds_replace_flat` (typing): in `doc(p("ab"))` insert `x` at 2, then `y` at 3;
     the merged step "insert `xy` at 2" applies and gives `doc(p("axyb"))`. -/
@@ -271,7 +291,7 @@ example : tinyS.apply (.replace 2 2 ⟨[.text [120, 121] []], 0, 0⟩ false) e0 
   have := merge_succeeds_replace_flat tinyS e0 e1 e2 2 2 3 3 [.text [120] []] [.text [121] []] _
     (by simp [e0, Node.kids, fnorm, fnormKids, Node.norm, chainOk])
     (by simp [fnorm, fnormKids, Node.norm, chainOk]) (by simp [fnorm, fnormKids, Node.norm, chainOk])
-    fwd1 fwd2 (by simp) (flatRange_refl _ _) (flatRange_refl _ _) rfl
+    fwd1 fwd2 (flatRange_refl _ _) (flatRange_refl _ _) rfl
   simpa [Slice.size, fappend, addNode] using this
 end Example
 
